@@ -1,4 +1,205 @@
 import Jose.Jwe
+import Jose.Lemmas.Tree
+/-
+  C02 — JWE decryption is authenticated over protected, aad, iv, ciphertext, tag.
+  Statements about `Jwe.decCek` / `Jwe.decCekIo` / `Jwe.decJwk` (jose_jwe_dec_cek(_io),
+  jose_jwe_dec_jwk and the encr.dec / wrap.unw hooks), for every instance of the primitives.
+-/
+set_option linter.unusedSimpArgs false
+set_option linter.unusedVariables false
+
 namespace Jose.Props.C02
-theorem placeholder : (1 : Nat) = 1 := rfl
+open Jose Jose.Jwe Jose.Jws Jose.IO Jose.Json Jose.Entity Tables
+
+/-- the associated data is the protected-header text, followed — when an `aad` member is
+    present — by '.' and the aad text **in full** -/
+theorem aad_in_full (kvs : List (String × Json)) (p a : String)
+    (hp : lookup "protected" kvs = some (.str p)) (ha : lookup "aad" kvs = some (.str a)) :
+    aadOf (.obj kvs) = some (B64.bytesOfString p ++ [46] ++ B64.bytesOfString a) := by
+  simp [aadOf, optStr, hp, ha]
+
+theorem aad_absent (kvs : List (String × Json)) (p : String)
+    (hp : lookup "protected" kvs = some (.str p)) (ha : lookup "aad" kvs = none) :
+    aadOf (.obj kvs) = some (B64.bytesOfString p) := by
+  simp [aadOf, optStr, hp, ha]
+
+/-- an `aad` or `protected` member that is not text makes the operation fail -/
+theorem aad_wrong_type (kvs : List (String × Json)) (v : Json) (hv : v.isString = false)
+    (h : lookup "aad" kvs = some v ∨ lookup "protected" kvs = some v) : aadOf (.obj kvs) = none := by
+  rcases h with h | h
+  · cases v <;> simp_all [aadOf, optStr, Json.isString]
+    all_goals (cases lookup "protected" kvs <;> simp) 
+    all_goals (rename_i x; cases x <;> simp)
+  · cases v <;> simp_all [aadOf, optStr, Json.isString]
+
+/-- what the content decryptor accepts, GCM: a 16-byte tag that the primitive accepts for
+    exactly (key, iv, aad, ciphertext) -/
+theorem open_gcm (P : Prims) (k : Nat) (key iv aad ct tag body : Bs)
+    (h : openWith P (.gcm k) key iv aad ct tag = some body) :
+    tag.length = 16 ∧ P.gcmDec key iv aad ct tag = some body := by
+  simp only [openWith] at h
+  split at h
+  · exact ⟨by assumption, h⟩
+  · simp at h
+
+/-- CBC-HMAC (RFC 7518 §5.2): the tag equals the first half of
+    HMAC(mac key, aad ‖ iv ‖ ciphertext ‖ 64-bit big-endian bit length of aad), the mac key
+    being the first half of the content key and the cipher key the second half; only then is
+    the ciphertext decrypted -/
+theorem open_cbc (P : Prims) (k : Nat) (hs : String) (key iv aad ct tag body : Bs)
+    (h : openWith P (.cbc k hs) key iv aad ct tag = some body) :
+    tag.length = k ∧
+    (P.hmac hs (key.take k) (aad ++ iv ++ ct ++ be 8 (aad.length * 8))).take k = tag ∧
+    P.cbcDec (key.drop k) iv ct = some body := by
+  simp only [openWith] at h
+  split at h
+  · rename_i hc; exact ⟨hc.1, hc.2, h⟩
+  · simp at h
+
+/-- **C02 (content authentication).**  One-shot decryption succeeds only if: the
+    ciphertext text is canonical base64url, the content-encryption algorithm is the one
+    named by the merged header (and the CEK declares no other), the CEK has exactly the
+    algorithm's key length and the IV its IV length, the tag member decodes, and
+    `openWith` accepts (key, iv, aad-in-full, ciphertext, tag) — see `open_gcm` / `open_cbc`. -/
+theorem dec_authenticated (P : Prims) (jwe cek : Json) (pt : Bs) (h : decCek P jwe cek = some pt) :
+    ∃ cts a zip fam iv key aad ct tag body,
+      jwe.get? "ciphertext" = some (.str cts) ∧ B64.decode (B64.bytesOfString cts) = some ct ∧
+      decCekSetup jwe cek = some (a, zip) ∧ encFamily a.name = some fam ∧
+      exactKey jwe "iv" (ivLen fam) = some iv ∧ exactKey cek "k" (cekLen fam) = some key ∧
+      aadOf jwe = some aad ∧ bytesOfJson (jwe.get? "tag") = some tag ∧
+      openWith P fam key iv aad ct tag = some body ∧
+      (if zip then P.inflate body else some body) = some pt := by
+  simp only [decCek] at h
+  cases hc : jwe.get? "ciphertext" with
+  | none => simp [hc] at h
+  | some cj =>
+    cases cj with
+    | str cts =>
+      simp only [hc] at h
+      split at h
+      · simp at h
+      · simp only [decBody, Option.bind_eq_some_iff, Option.map_eq_some_iff] at h
+        obtain ⟨f, ⟨⟨a, zip⟩, hs, fam, hf, iv, hiv, key, hk, aad, haad, rfl⟩, ct, hct, hfin⟩ := h
+        cases htag : bytesOfJson (jwe.get? "tag") with
+        | none => simp [htag] at hfin
+        | some tag =>
+          simp only [htag, Option.bind_eq_some_iff] at hfin
+          obtain ⟨body, hopen, hz⟩ := hfin
+          exact ⟨cts, a, zip, fam, iv, key, aad, ct, tag, body, rfl, hct, hs, hf, hiv, hk, haad, rfl, hopen, hz⟩
+    | _ => simp [hc] at h
+
+/-- the algorithm applied is the one the merged header names, and a CEK that declares an
+    algorithm is refused for any other, whatever the two names (C05) -/
+theorem dec_alg_select (jwe cek : Json) (a : AlgRec) (zip : Bool) (h : decCekSetup jwe cek = some (a, zip)) :
+    ∃ hdr halg kalg, jweHdr jwe none = some hdr ∧ optStr hdr "enc" = some halg ∧ optStr cek "alg" = some kalg ∧
+      findEncr a.name = some a ∧ (∀ x, halg = some x → a.name = x) ∧ (∀ y, kalg = some y → a.name = y) ∧
+      Jwk.prm (some cek) false a.p2 = true := by
+  simp only [decCekSetup, Option.bind_eq_some_iff] at h
+  obtain ⟨hdr, h1, halg, h2, kalg, h3, n, h4, a', h5, h6⟩ := h
+  split at h6
+  · simp at h6
+  · rename_i hprm
+    have ha : a' = a := by
+      split at h6
+      · split at h6 <;> simp at h6 <;> exact h6.1
+      · simp at h6; exact h6.1
+    subst ha
+    have hname : a'.name = n := by
+      simp only [findEncr] at h5
+      simpa using List.find?_some h5
+    refine ⟨hdr, halg, kalg, h1, h2, h3, by rw [hname]; exact h5, ?_, ?_, by simpa using hprm⟩
+    · intro x hx; subst hx
+      cases kalg <;> simp at h4
+      · rw [hname]; exact h4.symm
+      · rw [hname]; exact h4.2.symm
+    · intro y hy; subst hy
+      cases halg <;> simp at h4
+      · rw [hname]; exact h4.symm
+      · rw [hname, ← h4.2]; exact h4.1
+
+/-- compression is honoured only when `zip` is in the *protected* header (C15) -/
+theorem zip_only_protected (jwe cek : Json) (a : AlgRec) (h : decCekSetup jwe cek = some (a, true)) :
+    ∃ z, (B64.decLoad (jwe.get? "protected")).bind (·.getStr? "zip") = some z ∧ findComp z = true := by
+  simp only [decCekSetup, Option.bind_eq_some_iff] at h
+  obtain ⟨hdr, h1, halg, h2, kalg, h3, n, h4, a', h5, h6⟩ := h
+  split at h6
+  · simp at h6
+  · split at h6
+    · rename_i z hz
+      split at h6
+      · rename_i hc; exact ⟨z, hz, hc⟩
+      · simp at h6
+    · simp at h6
+
+/-- **C02 (streaming).**  In streaming mode the verdict is that of the final `done`, and it
+    is the one-shot verdict on the concatenation of everything fed, for every chunking -/
+theorem dec_stream (P : Prims) (jwe cek : Json) (sg : Stage) (h : decCekIo P jwe cek .sink = some sg) (cs : List Bs) :
+    ∃ f, decBody P jwe cek = some f ∧ (run sg cs).2 = (f cs.flatten).isSome := by
+  simp only [decCekIo, Option.map_eq_some_iff] at h
+  obtain ⟨f, hf, rfl⟩ := h
+  refine ⟨f, hf, ?_⟩
+  rw [run_V (AccT.leaf _ rfl) cs]
+  simp [V]
+
+/-- key management, AES key wrap: the CEK is what RFC 3394 unwrapping of exactly the
+    recipient's `encrypted_key` under exactly the key's `k` (of the algorithm's length) yields;
+    an integrity failure there is a failure of the whole operation -/
+theorem unw_aeskw (P : Prims) (name : String) (klen : Nat) (jwe rcp jwk cek cek' : Json) (rnd : Bs) (fuel : Nat)
+    (hf : wrapFamily name = some (.aeskw klen)) (h : unw P (fuel + 1) name jwe rcp jwk cek rnd = some cek') :
+    ∃ kek ct pt c, exactKey jwk "k" klen = some kek ∧ bytesOfJson (rcp.get? "encrypted_key") = some ct ∧
+      ct.length ≤ keymax + 16 ∧ P.kwUnwrap kek ct = some pt ∧ cek = .obj c ∧
+      cek' = .obj (setKV "k" (B64.enc pt) c) := by
+  simp only [unw, hf] at h
+  cases cek with
+  | obj c =>
+    simp only [Option.bind_eq_some_iff] at h
+    obtain ⟨kek, hk, ct, hct, hrest⟩ := h
+    split at hrest
+    · simp at hrest
+    · rename_i hlen
+      simp only [Option.map_eq_some_iff] at hrest
+      obtain ⟨pt, hpt, rfl⟩ := hrest
+      exact ⟨kek, ct, pt, c, hk, hct, by omega, hpt, rfl, rfl⟩
+  | _ => simp at h
+
+/-- key management, PBES2: an iteration count above the maximum is refused before any key
+    derivation; the salt is `alg ‖ 0x00 ‖ p2s` with 8 ≤ |p2s| ≤ KEYMAX (C14) -/
+theorem unw_pbes2_bounds (P : Prims) (name hs aes : String) (klen : Nat) (jwe rcp jwk cek cek' : Json) (rnd : Bs) (fuel : Nat)
+    (hf : wrapFamily name = some (.pbes2 hs aes klen)) (h : unw P (fuel + 1) name jwe rcp jwk cek rnd = some cek') :
+    ∃ hdr p2c st, jweHdr jwe (some rcp) = some hdr ∧ hdr.get? "p2c" = some (.int p2c) ∧ p2c ≤ p2cMax ∧
+      bytesOfJson (hdr.get? "p2s") = some st ∧ 8 ≤ st.length ∧ st.length ≤ keymax := by
+  simp only [unw, hf] at h
+  cases cek with
+  | obj c =>
+    simp only [Option.bind_eq_some_iff] at h
+    obtain ⟨hdr, hh, hrest⟩ := h
+    cases hp : hdr.get? "p2c" with
+    | none => simp [hp] at hrest
+    | some pj =>
+      cases pj with
+      | int p2c =>
+        simp only [hp] at hrest
+        split at hrest
+        · simp at hrest
+        · rename_i hmax
+          cases hst : bytesOfJson (hdr.get? "p2s") with
+          | none => simp [hst] at hrest
+          | some st =>
+            simp only [hst] at hrest
+            split at hrest
+            · simp at hrest
+            · rename_i hlen
+              simp only [Bool.or_eq_true, decide_eq_true_eq, not_or, Nat.not_lt] at hlen
+              exact ⟨hdr, p2c, st, hh, hp, by omega, hst, hlen.1, by omega⟩
+      | _ => simp [hp] at hrest
+  | _ => simp at h
+
+/-- table facts: every registered content-encryption / key-management name belongs to a
+    family the model knows; permissions are the documented ones -/
+theorem families_cover_registry :
+    (∀ a ∈ encrAlgs, (encFamily a.name).isSome = true ∧ a.p1 = some "encrypt" ∧ a.p2 = some "decrypt") ∧
+    (∀ a ∈ wrapAlgs, (wrapFamily a.name).isSome = true) ∧
+    (∀ a ∈ wrapAlgs, a.name ≠ "dir" → a.p1 = some "wrapKey" ∧ a.p2 = some "unwrapKey") := by
+  decide
+
 end Jose.Props.C02
